@@ -30,7 +30,16 @@ pub(super) fn execute_skip<'a, S: GraphSnapshot + 'a>(
         Err(err) => return PlanIterator::Dynamic(Box::new(std::iter::once(Err(err)))),
     };
     let input_iter = execute_plan(snapshot, input, params);
-    PlanIterator::Dynamic(Box::new(input_iter.skip(skip)))
+    // Only rows are skipped: `Iterator::skip` would also discard an error of the input
+    // (for example the error ORDER BY reports for a failing row).
+    let mut remaining = skip;
+    PlanIterator::Dynamic(Box::new(input_iter.filter(move |item| {
+        if item.is_ok() && remaining > 0 {
+            remaining -= 1;
+            return false;
+        }
+        true
+    })))
 }
 
 pub(super) fn execute_limit<'a, S: GraphSnapshot + 'a>(
